@@ -255,6 +255,7 @@ type Frame struct {
 	fn       *ssa.Function
 	env      map[ssa.Value]Val
 	cells    map[*ssa.Alloc]Val
+	cellOrd  map[*ssa.Alloc]int // creation order of the cells (latest declaration wins a name)
 	block    *ssa.BasicBlock
 	prev     *ssa.BasicBlock
 	pc       int
@@ -276,6 +277,12 @@ type activeLoop struct {
 	info      *LoopInfo
 	written   map[string]string
 	dec0      *Term
+	// objects that exist on loop entry (references <= entryK) and heap arrays the body only
+	// writes at objects it allocates itself: those arrays keep their entry contents there
+	entryK   int64
+	havocSym map[string]*Term
+	broken   map[string]bool // shared with the dry runs: arrays for which this does not hold
+	kept     map[string]*Term // adopted: name -> heap term on loop entry
 }
 
 type State struct {
